@@ -3,16 +3,16 @@ From FlacCodec Require Import Wf Spec Stream Progress Props_codec.
 Open Scope N_scope.
 Check (C17_parse_inverts_write : forall si f bytes rest,
   wf_frame si f = true -> write_frame f = Some bytes -> struct_frame si (bytes ++ rest) = Ok (f, rest)).
-Check (C04_frame_total_release : forall si chk bytes,
-  (forall h, is_panic (chk h) = false) -> is_panic (dec_frame Release si chk bytes) = false).
-Check (C04_stream_total_release : forall file,
-  match dec_stream Release file with Some (_, _, e) => is_end_panic e = false | None => True end).
-Check (C04_frame_progress : forall p si chk bytes h chans rest,
-  dec_frame p si chk bytes = Ok (h, chans, rest) -> (length rest + 2 <= length bytes)%nat).
+Check (C04_frame_total : forall si chk bytes,
+  (forall h, is_panic (chk h) = false) -> is_panic (dec_frame si chk bytes) = false).
+Check (C04_stream_total : forall file,
+  match dec_stream file with Some (_, _, e) => is_end_panic e = false | None => True end).
+Check (C04_frame_progress : forall si chk bytes h chans rest,
+  dec_frame si chk bytes = Ok (h, chans, rest) -> (length rest + 2 <= length bytes)%nat).
 Check (C03_decoder_follows_format : forall si chk f bytes rest,
   wf_frame si f = true -> spec_frame f = true -> write_frame f = Some bytes ->
   chk (f_hdr f) = Ok tt ->
-  dec_frame Release si chk (bytes ++ rest) = Ok (f_hdr f, sem_frame f, rest)).
+  dec_frame si chk (bytes ++ rest) = Ok (f_hdr f, sem_frame f, rest)).
 Check (C02_reference_decoder_accepts : forall si f bytes rest,
   wf_frame si f = true -> spec_frame f = true -> write_frame f = Some bytes ->
   spec_decode si (bytes ++ rest) = Ok (sem_frame f, rest)).
